@@ -15,9 +15,10 @@ META = {
         'subsumer through _least_common_subsumers, which raises wn.Error on an empty list, and path() turns exactly wn.Error into '
         'distance infinity; R3 simulate_root is forwarded to shortest_path / lowest_common_hypernyms (lcs.max_depth() exempt as '
         'documented); R4 no order-selected element (lcs_list[0], max(key=)) is taken from a hash-seed-ordered sequence; '
-        'R5 formula anchors: the return expressions are the documented formulas.'),
+        'R5 formula anchors: the return expressions are the documented formulas. R7 nothing in similarity/taxonomy/ic is '
+        'memoised or kept in module-level state.'),
     'decides': ['POS check first in all six metrics', 'LCS error discipline', 'simulate_root forwarding', 'no seed-selected subsumer',
-                'formula anchors'],
+                'formula anchors', 'no memoisation across Wordnet configurations'],
     'not_decided': ['numeric values, symmetry and bounds for all graphs'],
     'assumptions': [],
 }
@@ -191,6 +192,16 @@ def r6_errors_before_values(ctx, res):
                     break
 
 
+def r7_no_memo(ctx, res):
+    """the metrics are functions of the taxonomy as seen through the Wordnet of their arguments: nothing in similarity /
+    taxonomy / ic is memoised or kept in module-level state (a Synset hashes by row identity, not by the lexicon selection
+    and expand set of its Wordnet, so a memo keyed by synsets returns the depth / paths of another configuration)."""
+    from .c16 import hidden_state_subset
+    n = hidden_state_subset(ctx, res, ('similarity', 'taxonomy', 'ic'), 'no-memo')
+    if n < 25:
+        raise AnalysisError(f'only {n} functions of similarity / taxonomy / ic examined for memoisation')
+
+
 RULES = [
     ('C14-R1', r1_pos_check_first, 7),
     ('C14-R2', r2_error_discipline, 10),
@@ -198,4 +209,5 @@ RULES = [
     ('C14-R4', r4_no_seed_selected, 8),
     ('C14-R5', r5_anchors, 7),
     ('C14-R6', r6_errors_before_values, 11),
+    ('C14-R7', r7_no_memo, 25),
 ]
